@@ -269,6 +269,7 @@ def run_check(prop, modname, tier, seed):
     all_viol = []
     real_validations = 0
     validation_failures = []
+    all_samples = []
     weights = [f.get('weight', 1.0) for f in families]
     wsum = sum(weights)
     spent = 0.0
@@ -289,7 +290,8 @@ def run_check(prop, modname, tier, seed):
                            'completed': completed, 'wall_s': round(dt, 2),
                            'violation_signatures': len(acc.violations)})
         total.add({'stats': acc.stats.as_dict(), 'violations': {}, 'witnesses': acc.witnesses,
-                   'samples': acc.samples, 'notes': acc.notes, 'assumes': acc.assumes, 'xchecks': acc.xchecks})
+                   'samples': [], 'notes': acc.notes, 'assumes': acc.assumes, 'xchecks': acc.xchecks})
+        all_samples.extend(acc.samples[:1] if len(families) > 3 else acc.samples[:2])
         # ---- model validation: a few completed paths of this family are re-run on the real OS; every
         # obligation that held symbolically must hold there too (otherwise the environment model is wrong)
         nval = int(os.environ.get('VERIF_REAL_VALIDATIONS', '2' if tier == 'quick' else '6'))
@@ -346,7 +348,7 @@ def run_check(prop, modname, tier, seed):
         'transitions': st.decisions,
         'traces_validated_against_impl': replays + real_validations + total.xchecks,
         'concolic_cross_checks_in_model': total.xchecks, 'paths_revalidated_on_real_os': real_validations,
-        'samples': total.samples[:5] or [{'note': 'no sample recorded'}],
+        'samples': all_samples[:12] or [{'note': 'no sample recorded'}],
         'exhaustive': exhaustive,
         'paths_completed': st.paths_completed, 'paths_aborted_by_assumption': st.paths_aborted,
         'feasibility_queries': st.feas_queries, 'validity_queries': st.validity_queries,
